@@ -112,6 +112,11 @@ class Gen:
             t["indexes"].append(dict(name="inv", hash=schema["range"][0], range=schema["hash"][0]))
         if not op["gsi"]: del op["gsi"]
         if not op["lsi"]: del op["lsi"]
+        if r.random() < 0.03:
+            # a key attribute (of the table or of an index) declared with a type that is no key type: rejected
+            bad = r.choice(["BOOL", "SS", "L", "M", "NULL", "X", ""])
+            if r.random() < 0.5 or not t["indexes"]: op[r.choice(["hash", "range"] if schema["range"] else ["hash"])]["type"] = bad
+            else: op["attrs"][0]["type"] = bad
         ops.append(op)
         return t, ops
 
@@ -223,6 +228,7 @@ class Gen:
         base = dict(client=client, table=name)
         if k < 0.28:
             op = dict(op="put", item=self.item_of(t), **base)
+            if r.random() < 0.35: op["return_old"] = True
             if r.random() < 0.25:
                 e, nm, vs = self.cond()
                 op.update(cond=e, names=nm, values=vs)
@@ -260,6 +266,18 @@ class Gen:
                 e, nm, vs = self.cond()
                 if not (set(vs) & set(op["values"])):
                     op["filter"] = e; op["names"].update(nm); op["values"].update(vs)
+            if r.random() < 0.08:
+                # a start key written by hand: complete, lacking a key attribute, or with a key attribute (of the table
+                # or of the index) of the wrong type - the last two are rejected, not dropped
+                esk = self.key_of(t["schema"], exact=r.random() < 0.4)
+                if r.random() < 0.3 and t["schema"]["range"]: esk.pop(t["schema"]["range"][0], None)
+                if index:
+                    esk[index["hash"]] = S(r.choice(IDXVALS)) if r.random() < 0.7 else N("1")
+                    if index["range"] and r.random() < 0.8:
+                        esk[index["range"]] = S(r.choice(IDXVALS)) if r.random() < 0.8 else {"BOOL": True}
+                op["esk"] = esk
+                if r.random() < 0.5: op["limit"] = r.randrange(1, 4)
+                return [op]
             if r.random() < 0.5:
                 op["limit"] = r.randrange(1, 4)
                 out = [op]
